@@ -149,10 +149,10 @@ class Api:
         self._cache_key = None
         self._cache = {}
 
-    def translate_seqs(self, code, trim):
-        key = (code, trim)
+    def translate_seqs(self, code, trim, flag_repr="bool"):
+        key = (code, bool(trim), flag_repr)
         if key not in self._apps:
-            self._apps[key] = self.app.translate_seqs(moltype="dna", gc=code, trim_terminal_stop=trim)
+            self._apps[key] = self.app.translate_seqs(moltype="dna", gc=code, trim_terminal_stop=flag(trim, flag_repr))
         return self._apps[key]
 
 
@@ -490,8 +490,18 @@ def check_frames_long(rec, out: Out):
 
 # -------------------------------------------------------------- stop handling
 def _opt_key(args):
-    inc, trim, iok = args
-    return f"include_stop={int(inc)},trim_stop={int(trim)},incomplete_ok={int(iok)}"
+    inc, trim, iok = args[:3]
+    r = args[3] if len(args) > 3 else "bool"
+    return f"include_stop={int(inc)},trim_stop={int(trim)},incomplete_ok={int(iok)}" + ("" if r == "bool" else f",flags-as={r}")
+
+
+def flag(value, repr_):
+    """a truth value in the representation the spec names (FlagReprs)"""
+    if repr_ == "bool":
+        return bool(value)
+    import numpy
+
+    return {"np_bool": numpy.bool_, "int": int, "np_int8": numpy.int8, "np_float32": numpy.float32}[repr_](value)
 
 
 def _classify(observed, allowed):
@@ -514,7 +524,7 @@ def _gt_key(rec, entry, allowed, diag, st, got, observed):
     """Structural key of a get_translation disagreement (root causes first)."""
     diff = _classify(observed, allowed)
     opts = _opt_key(rec["args"])
-    inc, trim, _ = rec["args"]
+    inc, trim, _ = rec["args"][:3]
     old_style = entry.startswith("old-") or entry.startswith("app.")
     if empty_codon_error(st, got) and "" in (list(allowed) + [diag["trimmed"]]):
         # nothing (left) to translate: the terminal-stop test is applied to an empty codon
@@ -547,11 +557,12 @@ def _gt_compare(rec, out, entry, allowed, diag, st, got, info):
 def check_get_translation(rec, out: Out):
     api = Api.get()
     code, s = rec["code"], J(rec["seq"])
-    inc, trim, iok = rec["args"]
+    inc, trim, iok = rec["args"][:3]
+    fr = rec["args"][3]
     allowed = [J(a) for a in rec["ret"]["allowed"]]
     diag = {k: J(v) for k, v in rec["ret"]["diag"].items()}
     info = "stop" if any("*" in a for a in allowed) or REJECT in allowed else "nostop"
-    kw = dict(gc=code, incomplete_ok=iok, include_stop=inc, trim_stop=trim)
+    kw = dict(gc=code, incomplete_ok=flag(iok, fr), include_stop=flag(inc, fr), trim_stop=flag(trim, fr))
     for entry, mk, mt in (
         ("old-seq-dna", api.old_seq, "dna"),
         ("old-seq-rna", api.old_seq, "rna"),
@@ -572,7 +583,7 @@ def check_get_translation(rec, out: Out):
         st, got = call(lambda: member(entry, coll.get_translation(**kw).to_dict(), NAME))
         _gt_compare(rec, out, entry, allowed, diag, st, got, info)
         if not inc and not iok:
-            app = api.translate_seqs(code, trim)
+            app = api.translate_seqs(code, trim, fr)
             st, got = call(lambda: app(coll))
             if st == "ok":
                 if type(got).__name__ == "NotCompleted":
@@ -595,6 +606,7 @@ def _stop_compare(rec, out, entry, op, want, st, got):
         return
     L = len(rec["seq"])
     strict = int(rec["args"][0])
+    fr_sfx = "" if rec["args"][1] == "bool" else f":flags-as={rec['args'][1]}"
     if L == 0 and empty_codon_error(st, got):
         key = f"StopOps:{family(entry)}:{op}:empty-seq:raised-InvalidCodonError"
     else:
@@ -604,14 +616,14 @@ def _stop_compare(rec, out, entry, op, want, st, got):
             diff = "not-refused"
         else:
             diff = "wrong"
-        key = f"StopOps:{entry}:{op}:strict={strict}:Lmod3={L % 3}:{diff}"
+        key = f"StopOps:{entry}:{op}:strict={strict}{fr_sfx}:Lmod3={L % 3}:{diff}"
     out.fail(key, rec, entry, want, got, f"{op}(strict={bool(strict)}) of {seq_txt(rec)} code {rec['code']}")
 
 
 def check_stop_ops(rec, out: Out):
     api = Api.get()
     code, s = rec["code"], J(rec["seq"])
-    strict = rec["args"][0]
+    strict = flag(rec["args"][0], rec["args"][1])
     want_has = rec["ret"]["has"]
     want_trim = J(rec["ret"]["trim"])
     want_trim = "REJECT" if want_trim == REJECT else want_trim
